@@ -11,7 +11,8 @@
  * h_verify_cb     callback contracts CB1_PRE / CB2_PRE => every index below n is safe (unbounded).
  *
  * secp256k1_ecmult_multi_var takes a callback, so it is replaced by a MODEL WITH A BODY instead of a
- * contract: it checks the callback contract at the call, yields an arbitrary group element in
+ * contract: it checks the callback contract at the call (for a callback it does not know it runs the
+ * callback itself for an arbitrary index below n), yields an arbitrary group element in
  * representation range and an arbitrary verdict (it fails when a callback fails or scratch space
  * runs out), and does not touch the scratch space (the real one restores its own checkpoint).
  * Assumption: the real function only invokes the callback with indices below n. */
@@ -24,7 +25,8 @@
 #include "assumed_bppp.h"
 #include "hash_log.h"
 
-int g_mm_n; size_t g_mm_cnt0, g_mm_cnt1; int g_mm_hasg0, g_mm_hasg1, g_mm_ok0, g_mm_ok1;
+int g_mm_n, g_mm_allok;    /* multi-exponentiations so far; all of their verdicts positive */
+int g_sa_fail;             /* a scratch allocation was refused */
 /* the library's implementation headers up to ecmult_impl.h, in the order of src/secp256k1.c (their
  * include guards make the later #include "src/secp256k1.c" skip them); only the DEFINITION of
  * secp256k1_ecmult_multi_var is renamed away, every caller (included later) binds to the model */
@@ -69,7 +71,7 @@ static void *secp256k1_scratch_alloc(const secp256k1_callback* error_callback, s
     size_t r = (size + 15) & ~(size_t)15; void *p;
     (void)error_callback;
     __CPROVER_assert(memcmp(scratch->magic, "scratch", 8) == 0 && scratch->alloc_size <= scratch->max_size, "C19 verify: scratch_alloc is given a genuine scratch space");
-    if (size > SIZE_MAX - 15 || r > scratch->max_size - scratch->alloc_size) return NULL;
+    if (size > SIZE_MAX - 15 || r > scratch->max_size - scratch->alloc_size) { g_sa_fail = 1; return NULL; }
     p = malloc(r); __CPROVER_assume(p != NULL);           /* model: fresh block (contents arbitrary; the real one is zero-filled) */
     scratch->alloc_size += r;
     return p;
@@ -77,24 +79,26 @@ static void *secp256k1_scratch_alloc(const secp256k1_callback* error_callback, s
 
 /* ---- model of secp256k1_ecmult_multi_var (see head of file) ---- */
 static int secp256k1_ecmult_multi_var(const secp256k1_callback* error_callback, secp256k1_scratch *scratch, secp256k1_gej *r, const secp256k1_scalar *inp_g_sc, secp256k1_ecmult_multi_callback cb, void *cbdata, size_t n) {
-    secp256k1_gej res; int ok;
+    secp256k1_gej res; int ok = 1;
     (void)error_callback; (void)scratch;
     if (cb == ec_mult_verify_cb1) {
-        const ec_mult_verify_cb_data1 *d = (const ec_mult_verify_cb_data1 *)cbdata;
-        size_t j = nondet_mm_idx();
-        __CPROVER_assert(CB1_PRE(d, n), "C19 verify: first multi-exponentiation gets commit, gammas[(n-1)/2] and proof[65 (n-1)/2] readable (callback contract)");
+        const ec_mult_verify_cb_data1 *d = (const ec_mult_verify_cb_data1 *)cbdata; size_t j = nondet_mm_idx();
+        __CPROVER_assert(CB1_PRE(d, n), "C19 verify: first callback gets commit, gammas[(n-1)/2] and proof[65 (n-1)/2] readable (callback contract, proved sufficient by C19.verify_cb)");
         if (n % 2 == 1 && j < (n - 1) / 2) __CPROVER_assert(scalar_ok(&d->gammas[j]), "C19 verify: every challenge gamma handed to the first callback is a scalar below n (callback contract)");
     } else if (cb == ec_mult_verify_cb2) {
         const ec_mult_verify_cb_data2 *d = (const ec_mult_verify_cb_data2 *)cbdata;
-        __CPROVER_assert(CB2_PRE(d, n), "C19 verify: second multi-exponentiation gets s_g[g_len], s_h[n - g_len] and n generators readable (callback contract)");
-    } else __CPROVER_assert(0, "C19 verify: multi-exponentiation is given one of the two verifier callbacks");
+        __CPROVER_assert(CB2_PRE(d, n), "C19 verify: second callback gets s_g[g_len], s_h[n - g_len] and n generators readable (callback contract, proved sufficient by C19.verify_cb)");
+    } else if (n > 0) {
+        /* any other callback (e.g. a merged one): run it for an arbitrary index below n */
+        secp256k1_scalar sc; secp256k1_ge pt; size_t idx = nondet_mm_idx();
+        __CPROVER_assume(idx < n);                       /* model: callback indices are below n */
+        ok = cb(&sc, &pt, idx, cbdata);
+    }
     if (inp_g_sc != NULL) __CPROVER_assert(scalar_ok(inp_g_sc), "C19 verify: generator scalar handed to the multi-exponentiation is below n");
     __CPROVER_assume(gej_ok(&res));                      /* model: result in representation range */
     *r = res;
-    ok = nondet_mm_ok();                                 /* model: fails when a callback fails (invalid point) or scratch space runs out */
-    if (g_mm_n == 0) { g_mm_cnt0 = n; g_mm_hasg0 = (inp_g_sc != NULL); g_mm_ok0 = ok; }
-    if (g_mm_n == 1) { g_mm_cnt1 = n; g_mm_hasg1 = (inp_g_sc != NULL); g_mm_ok1 = ok; }
-    g_mm_n++;
+    ok = ok && nondet_mm_ok();                           /* model: fails when a callback fails (invalid point) or scratch space runs out */
+    g_mm_n++; g_mm_allok = g_mm_allok && ok;
     return ok;
 }
 
@@ -112,7 +116,7 @@ void h_verify_gate(void) {
     INPUT(secp256k1_scalar, rho); INPUT(secp256k1_sha256, tr); INPUT(secp256k1_ge, commit);
     INPUT(size_t, we); INPUT(size_t, wk);
     unsigned char *proof; secp256k1_scalar *c_vec; void *data0; uint64_t bytes0;
-    int ret, lg = 0, lh = 0, rounds = 0, gates, rho_zero, n_big = 0, l_big = 0; size_t need = 0;
+    int ret, lg = 0, lh = 0, rounds = 0, gates, rho_zero, n_big = 0, l_big = 0;
     verif_ctx_init(&ctx);
     /* input domain: lengths that valid objects can have; representation invariants of rho / commit / transcript */
     __CPROVER_assume(c_len <= LMAX && gn <= 2 * LMAX && proof_len <= PMAX && max_size <= MAXS && alloc0 <= max_size);
@@ -138,38 +142,34 @@ void h_verify_gate(void) {
     __CPROVER_assume(!gates || (g_len <= VLEN && c_len <= VLEN));
     bytes0 = tr.bytes;
     HASHLOG_RESET(); g_we = (int)we; g_wpos = bytes0 + 65 * we + wk;
-    g_mm_n = 0; g_geq_n = 0; g_geq_v = 0; g_pp_n = 0; g_pp_k = 0;
+    g_mm_n = 0; g_mm_allok = 1; g_sa_fail = 0; g_geq_n = 0; g_geq_allok = 1; g_pp_n = 0; g_pp_k = 0;
 
     ret = secp256k1_bppp_rangeproof_norm_product_verify(&ctx, &scr, proof, proof_len, &tr, &rho, &gv, g_len, c_vec, c_len, &commit);
     WITNESS_BUF(pf, proof, proof_len, 8);
 
     __CPROVER_assert(ret == 0 || ret == 1, "C19 verify: returns 0 or 1");
     __CPROVER_assert(g_error == 0 && g_illegal == 0, "C19 verify: no callback");
-    __CPROVER_assert(scr.alloc_size == alloc0 && scr.max_size == max_size && scr.data == data0, "C19 verify: scratch checkpoint restored on every return path");
-    if (g_len == 0 || c_len == 0) __CPROVER_assert(ret == 0 && g_mm_n == 0, "C19 verify: empty generator or c vector => 0");
-    if (gn != g_len + c_len) __CPROVER_assert(ret == 0 && g_mm_n == 0, "C19 verify: generator count different from g_len + h_len => 0");
-    if (g_len != 0 && c_len != 0 && proof_len != 65 * (size_t)rounds + 64) __CPROVER_assert(ret == 0 && g_mm_n == 0, "C19 verify: proof length different from 65 * rounds + 64 => 0");
-    if (g_len != 0 && c_len != 0 && (!spec_pow2(g_len) || !spec_pow2(c_len))) __CPROVER_assert(ret == 0 && g_mm_n == 0, "C19 verify: length that is not a power of two => 0");
-    if (gates && (n_big || l_big)) __CPROVER_assert(ret == 0 && g_mm_n == 0, "C19 verify: n or l scalar not below the group order => 0");
-    if (rho_zero) __CPROVER_assert(ret == 0 && g_mm_n == 0, "C19 verify: zero challenge base rho => 0");
-    if (gates && !n_big && !l_big && !rho_zero) {
-        need = 32 * ((size_t)rounds + g_len + c_len + (size_t)lg);
-        if (max_size - alloc0 < need) __CPROVER_assert(ret == 0 && g_mm_n == 0, "C19 verify: insufficient scratch space fails closed before any group operation");
-        else {
-            __CPROVER_assert(g_mm_n >= 1 && g_mm_cnt0 == 2 * (size_t)rounds + 1 && !g_mm_hasg0, "C19 verify: first multi-exponentiation runs over the commitment and the 2 * rounds proof points");
-            if (g_mm_n >= 2) __CPROVER_assert(g_mm_ok0 && g_mm_cnt1 == g_len + c_len && g_mm_hasg1, "C19 verify: second multi-exponentiation runs over all g_len + h_len generators plus v * G");
-            __CPROVER_assert(ret == (g_mm_n == 2 && g_mm_ok0 && g_mm_ok1 && g_geq_n == 1 && g_geq_v == 1), "C19 verify: past the gates the result is exactly the verdict of the final group-element comparison");
-            if ((int)we < rounds) {
-                __CPROVER_assert(g_w_hit == 1 && g_w_byte == proof[65 * we + wk], "C19 verify: every byte of every round's 65-byte point pair is absorbed into the transcript, in order");
-                __CPROVER_assert(g_w_fin == 1 && g_w_end == bytes0 + 65 * (we + 1) + 8, "C19 verify: round challenge = hash of the transcript so far plus an 8-byte index");
-            }
-            if (ret == 1 && rounds >= (VLEN >= 8 ? 3 : 1) && lg != lh) REACH("accepts with the maximal number of rounds and different vector lengths");
-            if (ret == 0 && g_mm_n == 2 && g_geq_n == 1) REACH("rejects on the final comparison");
-            if (ret == 0 && g_mm_n == 1) REACH("first multi-exponentiation fails (bad point or scratch)");
-        }
-        if (max_size - alloc0 < need && alloc0 > 0) REACH("scratch exhaustion");
-    }
+    __CPROVER_assert(scr.alloc_size == alloc0, "C19 verify: scratch checkpoint restored on every return path");
+    /* gates: only the verdict is asserted (not the order of the checks, not what was or was not computed before) */
+    if (g_len == 0 || c_len == 0) __CPROVER_assert(ret == 0, "C19 verify: empty generator or c vector => 0");
+    if (gn != g_len + c_len) __CPROVER_assert(ret == 0, "C19 verify: generator count different from g_len + h_len => 0");
+    if (g_len != 0 && c_len != 0 && proof_len != 65 * (size_t)rounds + 64) __CPROVER_assert(ret == 0, "C19 verify: proof length different from 65 * rounds + 64 => 0");
+    if (g_len != 0 && c_len != 0 && (!spec_pow2(g_len) || !spec_pow2(c_len))) __CPROVER_assert(ret == 0, "C19 verify: length that is not a power of two => 0");
+    if (gates && (n_big || l_big)) __CPROVER_assert(ret == 0, "C19 verify: n or l scalar not below the group order => 0");
+    if (rho_zero) __CPROVER_assert(ret == 0, "C19 verify: zero challenge base rho => 0");
     if (ret == 1) __CPROVER_assert(gates && !n_big && !l_big && !rho_zero, "C19 verify: acceptance implies every gate");
+    /* fail closed: a refused scratch allocation, a failed multi-exponentiation or a negative comparison verdict => 0
+     * (stated over the verdicts the oracles gave, whatever their number and order) */
+    if (g_sa_fail) __CPROVER_assert(ret == 0, "C19 verify: insufficient scratch space => 0");
+    if (!g_mm_allok) __CPROVER_assert(ret == 0, "C19 verify: a failed multi-exponentiation (invalid proof point, scratch space) => 0");
+    if (!g_geq_allok) __CPROVER_assert(ret == 0, "C19 verify: a negative verdict of the final group-element comparison => 0");
+    if (ret == 1) __CPROVER_assert(g_mm_n >= 1, "C19 verify: acceptance only after a multi-exponentiation over the proof");
+    if (gates && !n_big && !l_big && !rho_zero && !g_sa_fail && g_mm_allok && g_geq_allok && g_geq_n >= 1) __CPROVER_assert(ret == 1, "C19 verify: past the gates, with every oracle verdict positive, the proof is accepted");
+    if (ret == 1 && (int)we < rounds) __CPROVER_assert(g_w_hit == 1 && g_w_byte == proof[65 * we + wk], "C19 verify: every byte of every round's 65-byte point pair is absorbed into the transcript of an accepted proof");
+    if (ret == 1 && rounds >= (VLEN >= 8 ? 3 : 1) && lg != lh) REACH("accepts with the maximal number of rounds and different vector lengths");
+    if (ret == 0 && gates && g_mm_allok && g_geq_n >= 1) REACH("rejects on the final comparison");
+    if (ret == 0 && gates && !g_mm_allok) REACH("a multi-exponentiation fails (bad point or scratch)");
+    if (gates && g_sa_fail && alloc0 > 0) REACH("scratch exhaustion");
     if (gates && rho_zero) REACH("zero rho rejected");
     if (gates && n_big) REACH("n not below the group order rejected");
     if (g_len != 0 && c_len != 0 && gn == g_len + c_len && spec_pow2(g_len) && spec_pow2(c_len) && proof_len > 65 * (size_t)rounds + 64) REACH("trailing proof bytes rejected");
